@@ -11,9 +11,12 @@ ID, V = sys.argv[1], sys.argv[2]
 extra = []
 if "--checks" in sys.argv:
     extra = sys.argv[sys.argv.index("--checks") + 1].split(",")
-WT = "/tmp/seed-%s" % ID
-SRC = "/tmp/seed-%s-out/%s" % (ID, V)
-OUT = "/verif/seeded/%s-%s" % (ID, V)
+ROUND = ""
+if "--round" in sys.argv:
+    ROUND = sys.argv[sys.argv.index("--round") + 1]
+WT = "/tmp/seed%s-%s" % (ROUND, ID)
+SRC = "/tmp/seed%s-%s-out/%s" % (ROUND, ID, V)
+OUT = "/verif/seeded/%s-%s%s" % (ID, V, ROUND)
 env = dict(os.environ, GOPROXY="off", GOSUMDB="off", GOTOOLCHAIN="local", GOFLAGS="")
 
 def sh(cmd, cwd, timeout=1500):
@@ -24,7 +27,7 @@ meta = json.load(open(os.path.join(SRC, "meta.json")))
 patch = os.path.join(SRC, "patch.diff")
 demo_path = meta.get("demo_path") or meta.get("demo") or ""
 demos = [f for f in glob.glob(os.path.join(SRC, "*_test.go"))]
-res = {"id": ID, "variant": V, "property": ID, "summary": meta.get("summary"), "needs_to_manifest": meta.get("needs_to_manifest"),
+res = {"id": ID, "variant": V + ROUND, "property": ID, "summary": meta.get("summary"), "needs_to_manifest": meta.get("needs_to_manifest"),
        "files_changed": meta.get("files_changed"), "agent_verified": meta.get("verified")}
 if not demos:
     print("no demo test file"); sys.exit(2)
